@@ -18,6 +18,7 @@ import (
 	"os"
 	"path/filepath"
 	"runtime"
+	"strings"
 	"sync"
 	"sync/atomic"
 	"testing"
@@ -250,6 +251,15 @@ func WaitAttached(c *mon.Case, w *PipeWatch, n int, what string) bool {
 	return c.AwaitOrViolate("harness:attach-stuck:"+what, "waiting for "+what+" to attach", func() bool { return w.Attached() >= n }, mon.AwaitOpts{MaxTimer: 200 * time.Millisecond})
 }
 
+// WaitDetached waits until n pipes have detached; false (no verdict) when that does not happen.
+func WaitDetached(c *mon.Case, w *PipeWatch, n int, what string) bool {
+	r := mon.Await(func() bool { return w.Detached() >= n }, mon.AwaitOpts{MaxTimer: 200 * time.Millisecond})
+	if r.V != mon.Done {
+		c.Logf("waiting for %s: %v", what, r.V)
+	}
+	return r.V == mon.Done
+}
+
 func Be32(v uint32) []byte { b := make([]byte, 4); binary.BigEndian.PutUint32(b, v); return b }
 
 func Cat(bs ...[]byte) []byte {
@@ -268,6 +278,8 @@ type YieldCfg struct {
 	ProbGosched float64
 	ProbSleep   float64
 	MaxSleep    time.Duration
+	// Message also perturbs the (very hot) points inside Message.Clone and Message.Free.
+	Message bool
 }
 
 var yieldState atomic.Pointer[YieldCfg]
@@ -281,7 +293,7 @@ func init() {
 		v, _ := yieldHits.LoadOrStore(point, new(atomic.Int64))
 		v.(*atomic.Int64).Add(1)
 		cfg := yieldState.Load()
-		if cfg == nil {
+		if cfg == nil || (!cfg.Message && strings.HasPrefix(point, "message.")) {
 			return
 		}
 		yieldRnd.Lock()
